@@ -1660,7 +1660,7 @@ def entity_cases(ctx, msp):
             exact = deg == 3 and not weights
             size = _scale(*[c for p in cps for c in p])
             yield f"SPLINE-deg{deg}" + ("-rational" if weights else "") + ("-closed" if closed else ""), e, T, \
-                (1e-9 * size if exact else 3e-2 * size) + samp, size, False, {"cps": cps, "degree": deg, "weights": weights}
+                (1e-9 * size if exact else 1e-1 * size) + samp, size, False, {"cps": cps, "degree": deg, "weights": weights}
         elif kind in ("LWPOLYLINE", "POLYLINE2D", "HATCH-poly"):
             n = rng.randint(2, 7)
             pts = []
@@ -1942,13 +1942,14 @@ def oracle_roundtrip(ctx):
                 fail("to_splines_and_polylines", "no entities")
                 continue
             h = _hausdorff(np_arr(parts), ref)
+            has_z_lines = (not planar or any(abs(v[2]) > 0 for v in f)) and any(c.type == Command.LINE_TO for c in p.commands())
+            cls = "3d-lines-lose-z" if has_z_lines else "other"
             if h > 1e-3 * size:
-                has_z_lines = (not planar or any(abs(v[2]) > 0 for v in f)) and any(c.type == Command.LINE_TO for c in p.commands())
-                cls = "3d-lines-lose-z" if has_z_lines else "other"
                 ctx.fail(f"roundtrip/to_splines_and_polylines/{cls}/{i}", f"to_splines_and_polylines -> make_path deviates {h!r} from the path "
                          f"(size {size!r}); input {str(rep)[:500]}", rep)
             elif max(abs(a - b) for a, b in zip(parts[0], key3(p.start))) > 1e-6 * size or max(abs(a - b) for a, b in zip(parts[-1], key3(p.end))) > 1e-6 * size:
-                fail("to_splines_and_polylines-ends", "start/end not kept")
+                ctx.fail(f"roundtrip/to_splines_and_polylines/{cls}/ends/{i}", f"to_splines_and_polylines -> make_path: start/end not kept "
+                         f"({parts[0]} .. {parts[-1]} vs {key3(p.start)} .. {key3(p.end)}); input {str(rep)[:400]}", rep)
         if not planar:
             continue
         z = paths[0].start.z
